@@ -38,7 +38,7 @@ FLOORS = {
     'quick': dict({'events_checked': 4000, 'tagging_compared': 2500, 'failing_reached': 800, 'default_only_compared': 4000,
                    'declared_params_calls': 500, 'per_instance_compared': 4000, 'per_instance_mixed_named_and_default': 500, 'based_rule_events_both_declare_params': 20, 'fallback_name_calls': 1000, 'nomemo_retry_k3': 200, 'memo_replay_seen': 25,
                    'gen_cases': 400, 'gen_reused_cases': 150, 'scalar_family_cases': 1200,
-                   'grammars_with_rules_named_like_builtins': 250, 'semantics_delivered_by:attribute': 8000, 'semantics_delivered_by:constructor': 1500}, **{'exc_propagated:' + e: 60 for e in EXC_TYPES}),
+                   'grammars_with_rules_named_like_builtins': 250, 'keyword_action_cases': 9000, 'keyword_action_rejected_without_semantics': 3000, 'declared_exact_signature_cases': 1500, 'semantics_delivered_by:attribute': 8000, 'semantics_delivered_by:constructor': 1500}, **{'exc_propagated:' + e: 60 for e in EXC_TYPES}),
     'thorough': {'events_checked': 100000, 'tagging_compared': 60000, 'failing_reached': 20000},
 }
 N = {'quick': 2400, 'thorough': 64000}
@@ -461,6 +461,20 @@ def check_declared(acc, be, g, text, rng):
     def method(self, ast, *params, **kw):
         calls.append((list(params), {k: v for k, v in kw.items() if k != 'parseinfo'}))
         return ast
+    tparams0, _tkw0 = declared(g, target)
+    shape = rng.choice(['varargs', 'varargs', 'exact'])
+    if shape == 'exact':
+        # the same class name and method name as every other case of this process, but a method that declares exactly the
+        # rule's positional parameters: what an action receives is decided by THIS function's own signature
+        ps = ', '.join(f'p{i}' for i in range(len(tparams0)))
+        ns = {'calls': calls}
+        exec(f"def method(self, ast{', ' if ps else ''}{ps}, **kw):\n"
+             f"    calls.append(([{ps}], {{k: v for k, v in kw.items() if k != 'parseinfo'}}))\n"
+             f"    return ast\n", ns)
+        method = ns['method']
+        method.__qualname__ = 'check_declared.<locals>.method'
+        method.__module__ = __name__
+        acc.count('declared_exact_signature_cases')
     cls = type('Declared', (), {mname: method})
     sem = cls()
     out = run(be, g, text, sem)
@@ -512,6 +526,53 @@ def check_nomemo(acc, rng, kind):
         if n < 1 or n > k:
             acc.violation(f'memo-action-count/{kind}', f'memoizable rule tried {k} times ran its action {n} times', w)
     acc.nontriv('nomemo', k, nomemo, kind)
+
+
+KW_SEMS = ['tagging', 'default_tagging', 'constant', 'identity']
+
+
+def check_keyword_action(acc, rng, kind):
+    """a semantic action never changes WHETHER an input is accepted: a reserved word where an @name rule stands is rejected
+    with every semantics object exactly as without one (the action's result is not what the reserved-word test looks at)"""
+    kws = rng.sample(['if', 'end', 'let', 'in', 'do'], rng.choice([1, 2, 3]))
+    body = rng.choice([L.PClo(L.Call('ident')), L.Seq((L.Call('ident'), L.Clo(L.Seq((L.Tok(','), L.Call('ident')))))),
+                       L.Choice((L.Seq((L.Call('ident'), L.Tok('='), L.Call('ident'))), L.Seq((L.Tok(kws[0]), L.Call('ident')))))])
+    g = L.Grammar([L.Rule('start', L.Seq((body, L.EOF()))), L.Rule('ident', L.Pat(r'[a-z]+'), decorators=('name',))],
+                  {}, tuple(kws))
+    try:
+        be = Backend(g, kind)
+    except Exception as e:  # noqa: BLE001
+        acc.count('build_failed:' + type(e).__name__)
+        return
+    words = kws + ['x', 'iff', 'en', 'y']
+    for _ in range(6):
+        n = rng.choice([1, 2, 3])
+        text = rng.choice([' ', ' , ', ' = '])[:rng.choice([1, 3])].join(rng.choice(words) for _ in range(n))
+        base = run(be, g, text, None)
+        semname = rng.choice(KW_SEMS)
+        if semname == 'tagging':
+            sem = Recorder(transform=lambda rule, ast, n: ('T', rule, ast), record=False)
+        elif semname == 'identity':
+            sem = Recorder(record=False)
+        elif semname == 'constant':
+            sem = Recorder(transform=lambda rule, ast, n: 0, record=False)
+        else:
+            sem = type('DefaultTagging', (), {'_default': lambda self, ast, *a, **kw: ('D', ast)})()
+        out = run(be, g, text, sem)
+        acc.evaluations += 1
+        acc.count('keyword_action_cases')
+        if base[0] == 'fail':
+            acc.count('keyword_action_rejected_without_semantics')
+        if out[0] == 'raised' or base[0] == 'raised':
+            bad = out if out[0] == 'raised' else base
+            acc.violation(f'exc:{type(bad[1]).__name__}/keyword-action/{kind}', f'parse raised {show(bad)}: {L.grammar_text(g)!r} {text!r}',
+                          base_witness(g, text, backend=kind, sem='keyword_action'))
+            return
+        if out[0] != base[0]:
+            acc.violation(f'acceptance-changed-by-action/{semname}/{kind}',
+                          f'without semantics the input is {base[0]}, with a {semname} action it is {out[0]}: {L.grammar_text(g).strip()!r} {text!r}',
+                          base_witness(g, text, backend=kind, sem='keyword_action', action=semname))
+            return
 
 
 def check_scalars(acc, rng, kind):
@@ -579,6 +640,7 @@ def run_shard(desc, acc):
             acc.count('semantics_delivered_by:' + k, v)
         check_nomemo(acc, rng, kind)
         check_scalars(acc, rng, kind)
+        check_keyword_action(acc, rng, kind)
         if i == 0:
             acc.sample({'grammar': L.grammar_text(g), 'inputs': texts,
                         'semantics': ['recording', 'tagging', 'failing', 'raising', 'default_only', 'declared']})
